@@ -8,6 +8,7 @@ CONSTANTS
   KwShapes = {"40", "3x40", "40x3", "2x3"}
   KwDC = {"plain", "ties", "nan"}
   AliasCombos <- CombosAll
+  UCs = {"B1", "D1", "BR", "DR"}
   AllClsDC = {"nan", "inf", "nz"}
 INIT Init
 NEXT Next
